@@ -67,7 +67,8 @@ def convMathDelimited (e : Env) (r : Rec) (ctx : Ctx) (n : ANode) : M Doc := do
 /-- State: the last node was a hashed expression that ends with an identifier. -/
 def attachProducer (e : Env) (r : Rec) (afterHashedIdent : Bool) (c : Ctx) (node : ANode) : M (Bool × Option FlowItem) := do
   if isExpr node then
-    let a := c.mode.isCode && (node.kind == .ident || node.kind == .fieldAccess)
+    let a := c.mode.isCode && (node.kind == .ident || node.kind == .fieldAccess || node.kind == .bool
+      || node.kind == .none_ || node.kind == .auto_)
     pure (a, some ⟨← r.expr c node, false, a⟩)
   else if node.kind == .space then pure (afterHashedIdent, none)
   else if node.kind == .underscore && afterHashedIdent then pure (false, some ⟨e.tok node.text, true, false⟩)
